@@ -20,18 +20,25 @@ StackMinBlocks == 6            \* a source is stacked only with >= 6 blocks, no 
 (* is closed when its bytes + 8 * its number of documents exceed the block size.              *)
 (* ids = document identities, sizes = their serialised sizes (same length).                   *)
 
-RECURSIVE CutR(_, _, _, _, _, _, _)
-CutR(ids, sizes, bs, i, cur, bytes, acc) ==
-  IF i > Len(ids) THEN (IF cur = <<>> THEN acc ELSE Append(acc, [ids |-> cur, bytes |-> bytes + 4 * (Len(cur) + 1)]))
-  ELSE LET c == Append(cur, ids[i])
-           b == bytes + sizes[i]
-       IN IF b + IndexBytesPerDoc * Len(c) > bs
-          THEN CutR(ids, sizes, bs, i + 1, <<>>, 0, Append(acc, [ids |-> c, bytes |-> b + 4 * (Len(c) + 1)]))
-          ELSE CutR(ids, sizes, bs, i + 1, c, b, acc)
+\* writer state: closed blocks, documents of the current block, their bytes
+EmptyW == [acc |-> <<>>, cur |-> <<>>, bytes |-> 0]
+CloseBlock(w) ==
+  IF w.cur = <<>> THEN w
+  ELSE [acc |-> Append(w.acc, [ids |-> w.cur, bytes |-> w.bytes + 4 * (Len(w.cur) + 1)]), cur |-> <<>>, bytes |-> 0]
+
+RECURSIVE CutR(_, _, _, _, _)
+CutR(ids, sizes, bs, i, w) ==
+  IF i > Len(ids) THEN w
+  ELSE LET w1 == [acc |-> w.acc, cur |-> Append(w.cur, ids[i]), bytes |-> w.bytes + sizes[i]]
+       IN CutR(ids, sizes, bs, i + 1,
+               IF w1.bytes + IndexBytesPerDoc * Len(w1.cur) > bs THEN CloseBlock(w1) ELSE w1)
+
+\* the documents `ids` stored one by one into a writer in state w
+StoreAll(ids, sizes, bs, w) == CutR(ids, sizes, bs, 1, w)
 
 \* the blocks written for the documents `ids` (uncompressed length of a block: documents,
 \* one u32 offset per document, one u32 count)
-Cut(ids, sizes, bs) == CutR(ids, sizes, bs, 1, <<>>, 0, <<>>)
+Cut(ids, sizes, bs) == CloseBlock(StoreAll(ids, sizes, bs, EmptyW)).acc
 
 RECURSIVE Flatten(_)
 Flatten(blocks) == IF blocks = <<>> THEN <<>> ELSE Head(blocks).ids \o Flatten(Tail(blocks))
@@ -125,6 +132,19 @@ Stack(srcs) == IF srcs = <<>> THEN <<>> ELSE Head(srcs) \o Stack(Tail(srcs))
 \* the merger's choice for one source
 Stacks(blocks, alive, sameCodec) ==
   alive = AllAlive(blocks) /\ Len(blocks) >= StackMinBlocks /\ sameCodec
+
+\* IndexMerger::write_storable_fields without a sort: per source either stack (the writer's
+\* current block is closed first) or store the live documents one by one
+RECURSIVE MergeW(_, _, _, _, _)
+MergeW(srcs, alives, sizeOf, bs, w) ==
+  IF srcs = <<>> THEN w
+  ELSE LET src == Head(srcs)
+           live == Live(src, Head(alives))
+           w1 == IF Stacks(src, Head(alives), TRUE)
+                 THEN [acc |-> CloseBlock(w).acc \o src, cur |-> <<>>, bytes |-> 0]
+                 ELSE StoreAll(live, [i \in 1..Len(live) |-> sizeOf[live[i]]], bs, w)
+       IN MergeW(Tail(srcs), Tail(alives), sizeOf, bs, w1)
+Merge(srcs, alives, sizeOf, bs) == CloseBlock(MergeW(srcs, alives, sizeOf, bs, EmptyW)).acc
 
 -----------------------------------------------------------------------------
 (* The machine: a writer adds documents and closes the store; a reader with an LRU cache of   *)
